@@ -128,15 +128,35 @@ impl Check for C02 {
         tier.pick(std::time::Duration::from_secs(200), std::time::Duration::from_secs(1500))
     }
     fn required_counters(&self, _tier: Tier) -> Vec<&'static str> {
-        vec!["restarts", "torn-variants", "every-prefix-cases", "must-serve-keys", "must-be-absent-keys"]
+        vec!["restarts", "torn-variants", "every-prefix-cases", "must-serve-keys", "must-be-absent-keys", "full-store-restarts", "root-used-before-by-another-network-version"]
     }
     fn run_case(&self, cx: &mut Cx) {
+        // the store's capacity is a constant of the shipped build (not configurable at construction), so
+        // "full at the moment of the restart" is exercised at its real size: cases 0 and 1 of every run
+        if cx.index < 2 {
+            return full_store_case(cx);
+        }
         let root = scratch_dir("c02");
         let live = root.join("live");
         let mut sim = Sim::new(cx.rng.gen(), false);
         sim.policy = Policy::Random;
         sim.set_gates_controlled(true);
         let kp = gen::ed_keypair(&mut cx.rng);
+        // a third of the roots were used before by a build with another (longer / shorter) network version
+        // string: the first start wipes and re-labels the directory, every later restart must keep it
+        match cx.rng.gen_range(0..6) {
+            0 => {
+                std::fs::create_dir_all(&live).expect("mkdir");
+                std::fs::write(live.join("network_key_version"), b"previous-network-version-string-0123456789").expect("version file");
+                cx.count("root-used-before-by-another-network-version");
+            }
+            1 => {
+                std::fs::create_dir_all(&live).expect("mkdir");
+                std::fs::write(live.join("network_key_version"), b"9").expect("version file");
+                cx.count("root-used-before-by-another-network-version");
+            }
+            _ => {}
+        }
         sim.add_node(kp.clone(), live.clone(), false);
         if cx.rng.gen_bool(0.5) {
             let c = cx.rng.gen_range(1..=3);
@@ -194,7 +214,20 @@ impl Check for C02 {
             }
         }
         sim.collect();
-        let unhandled: Vec<Vec<u8>> = sim.nodes[0].local_q.iter().filter_map(crate::sim::local_cmd_key).collect();
+        let unhandled_ops: Vec<usize> = keys
+            .iter()
+            .map(|key| {
+                sim.nodes[0]
+                    .local_q
+                    .iter()
+                    .filter(|c| match c {
+                        LocalSwarmCmd::PutLocalRecord { record } => record.key == *key,
+                        LocalSwarmCmd::RemoveFailedLocalRecord { key: k2 } => k2 == key,
+                        _ => false,
+                    })
+                    .count()
+            })
+            .collect();
         sim.bury_background_tasks();
         let (all_ids, completed_ids) = {
             let g = sim.gates.lock().expect("gates");
@@ -212,17 +245,31 @@ impl Check for C02 {
         for k in 0..nkeys {
             let kb = keys[k].to_vec();
             let tasks: Vec<_> = all_ids.iter().filter(|g| g.key == kb && g.kind != GateKind::MetricsFlush).collect();
-            let done = tasks.iter().filter(|g| completed_ids.contains(g)).count();
-            let handled = tasks.len();
-            // completed tasks form a prefix (per-key FIFO); cross-check the mapping tasks <-> operations
-            let prefix_ok = tasks.iter().take(done).all(|g| completed_ids.contains(g));
-            let kinds_ok = tasks.iter().zip(ops[k].iter()).all(|(g, o)| matches!((g.kind, o), (GateKind::DiskWrite, Op::Put(_)) | (GateKind::DiskDelete, Op::Remove)));
-            if !prefix_ok || !kinds_ok || handled > ops[k].len() {
-                cx.inconclusive(format!("task/operation bookkeeping mismatch for k{k} (tasks {handled}, ops {}, done {done})", ops[k].len()));
+            // operations whose command the driver had handled before the crash (per-key FIFO: the unhandled ones are the last)
+            let handled = ops[k].len().saturating_sub(unhandled_ops[k]);
+            // align handled operations with the disk tasks they spawned (spawn order). An operation that
+            // spawned no task has nothing left to do: it counts as completed (and is judged like one).
+            let mut ti = 0usize;
+            let mut op_done: Vec<bool> = vec![];
+            for op in ops[k].iter().take(handled) {
+                let want = match op {
+                    Op::Put(_) => GateKind::DiskWrite,
+                    Op::Remove => GateKind::DiskDelete,
+                };
+                if ti < tasks.len() && tasks[ti].kind == want {
+                    op_done.push(completed_ids.contains(tasks[ti]));
+                    ti += 1;
+                } else {
+                    op_done.push(true);
+                    cx.count(if want == GateKind::DiskDelete { "handled-remove-without-disk-task" } else { "handled-put-without-disk-task" });
+                }
+            }
+            if ti != tasks.len() {
+                cx.inconclusive(format!("task/operation bookkeeping mismatch for k{k} (tasks {}, aligned {ti}, handled ops {handled})", tasks.len()));
                 let _ = std::fs::remove_dir_all(&root);
                 return;
             }
-            let _ = unhandled.len();
+            let done = op_done.iter().take_while(|d| **d).count();
             let all_values: Vec<Vec<u8>> = ops[k].iter().filter_map(|o| if let Op::Put(v) = o { Some(v.clone()) } else { None }).collect();
             let settled = done == ops[k].len();
             let (must_serve, must_be_absent) = match (settled, ops[k].last()) {
@@ -236,7 +283,7 @@ impl Check for C02 {
             if must_be_absent {
                 cx.count("must-be-absent-keys");
             }
-            n_completed_writes += tasks.iter().take(done).filter(|g| g.kind == GateKind::DiskWrite).count();
+            n_completed_writes += ops[k].iter().take(done).filter(|o| matches!(o, Op::Put(_))).count();
             n_incomplete += ops[k].len() - done;
             if done < handled {
                 if let Op::Put(v) = &ops[k][done] {
@@ -323,4 +370,110 @@ impl Check for C02 {
         drop(sim);
         let _ = std::fs::remove_dir_all(&root);
     }
+}
+
+/// A store filled to exactly its shipped capacity (case 0) or one below (case 1), every write completed
+/// and acknowledged, a few completed removals, then a restart: everything must be served again.
+fn full_store_case(cx: &mut Cx) {
+    let root = scratch_dir("c02full");
+    let live = root.join("live");
+    let mut sim = Sim::new(cx.rng.gen(), false);
+    sim.policy = Policy::Fifo;
+    sim.set_gates_controlled(false);
+    let kp = gen::ed_keypair(&mut cx.rng);
+    sim.add_node(kp.clone(), live.clone(), false);
+    let max = match sim.nodes[0].drv.verif_store_mut() {
+        Some(s) => s.verif_snapshot().max_records,
+        None => {
+            cx.inconclusive("no node store");
+            return;
+        }
+    };
+    let removed = 3usize;
+    let n = if cx.index == 0 { max } else { max - 1 };
+    let mut keys: Vec<RecordKey> = Vec::with_capacity(n + removed);
+    let mut values: Vec<Vec<u8>> = Vec::with_capacity(n + removed);
+    let drain = |sim: &mut Sim| {
+        for _ in 0..1_000_000 {
+            if !sim.step() {
+                break;
+            }
+        }
+    };
+    // a few records that are stored and removed again first, so that the final population is exactly n
+    for i in 0..(n + removed) {
+        let kind = KINDS[i % KINDS.len()];
+        let v = value_with_id(&mut cx.rng, kind, i as u64 + 1, 8 + i % 24);
+        let key = RecordKey::from(gen::bytes(&mut cx.rng, 32));
+        {
+            let _g = sim.rt.enter();
+            let _ = sim.nodes[0].drv.verif_handle_local_cmd(LocalSwarmCmd::PutLocalRecord { record: Record { key: key.clone(), value: v.clone(), publisher: None, expires: None } });
+        }
+        keys.push(key);
+        values.push(v);
+        if i + 1 == removed {
+            drain(&mut sim);
+            for k in keys.iter().take(removed) {
+                let _g = sim.rt.enter();
+                let _ = sim.nodes[0].drv.verif_handle_local_cmd(LocalSwarmCmd::RemoveFailedLocalRecord { key: k.clone() });
+            }
+            drain(&mut sim);
+        }
+        if i % 256 == 255 {
+            drain(&mut sim);
+        }
+    }
+    let mut d = || true;
+    if !sim.settle(&mut d) {
+        cx.inconclusive("filling the store did not settle");
+        let _ = std::fs::remove_dir_all(&root);
+        return;
+    }
+    let held_before = sim.all_addresses(0).len();
+    let w = json!({"capacity": max, "records_put": n, "removed_before": removed, "held_before_restart": held_before});
+    if held_before != n {
+        // the store must hold exactly what was put (nothing may have been pruned below capacity)
+        cx.violation("full-store:population-differs-before-restart", format!("{n} records were put below / at capacity {max} and 3 removed, the store lists {held_before}"), w.clone());
+    }
+    sim.bury_background_tasks();
+    sim.crash_node(0);
+    let idx = sim.add_node(kp.clone(), live.clone(), false);
+    sim.yield_rounds(8);
+    cx.count("restarts");
+    cx.count("full-store-restarts");
+    let listed: BTreeSet<Vec<u8>> = sim.all_addresses(idx).keys().map(|a| a.to_record_key().to_vec()).collect();
+    let mut lost = 0usize;
+    let mut first_lost = None;
+    for (i, k) in keys.iter().enumerate().skip(removed) {
+        cx.eval();
+        if !listed.contains(&k.to_vec()) {
+            lost += 1;
+            first_lost.get_or_insert(i);
+        }
+    }
+    if lost > 0 {
+        cx.violation("completed-write-not-indexed-after-restart:full-store", format!("{lost} of {n} completed, acknowledged writes are not listed after restarting a store of capacity {max} (first: record #{})", first_lost.unwrap_or(0)), w.clone());
+    }
+    for k in keys.iter().take(removed) {
+        if listed.contains(&k.to_vec()) || sim.get_local(idx, k).is_some() {
+            cx.violation("completed-removal-undone-after-restart", "a record removed (file deleted) before the restart is back", w.clone());
+        }
+    }
+    if listed.len() > n {
+        cx.violation("restart-lists-unknown-key", format!("{} keys listed, {n} put", listed.len()), w.clone());
+    }
+    // read back a sample (and the last ones put) byte-exactly
+    let mut sample: Vec<usize> = (0..300).map(|_| cx.rng.gen_range(removed..keys.len())).collect();
+    sample.extend([removed, keys.len() - 1, keys.len() - 2]);
+    for i in sample {
+        cx.eval();
+        let got = sim.get_local(idx, &keys[i]);
+        if listed.contains(&keys[i].to_vec()) && got.as_ref().map(|r| &r.value) != Some(&values[i]) {
+            cx.violation("completed-write-lost-after-restart", format!("[full store] record #{i} is listed but get returns {:?}", got.map(|r| r.value.len())), w.clone());
+        }
+    }
+    cx.nontrivial(&("full-store", n, max));
+    cx.sample(w);
+    drop(sim);
+    let _ = std::fs::remove_dir_all(&root);
 }
